@@ -48,9 +48,9 @@ def collectLines (text : Nat → String) (isLookupName : String → Bool) (R : L
   | .ifexp _ c t e =>
       collectLines text isLookupName R (collectLines text isLookupName R (collectLines text isLookupName R m c) t) e
   | .display _ es => collectLinesList text isLookupName R m es
-  | .comp i _ inner =>
+  | .comp i _ first inner =>
       let m := (match recorded R i with | some v => putLine m (text i) v | none => m)
-      collectLinesList text isLookupName R m inner
+      collectLinesList text isLookupName R (collectLines text isLookupName R m first) inner
   -- second version: `generic_visit` walks the children in field order; a call gets a line; an f-string gets a line
   -- for the whole string and is NOT descended into (`visit_JoinedStr`)
   | .starred _ e => collectLines text isLookupName R m e
